@@ -232,7 +232,7 @@ JOBS['C17'] = [
      'expect_reach': ['end'], 'timeout': {'quick': 280, 'thorough': 1700}},
     {'name': 'layout_reorder', 'harness': 'c17_ren.c', 'units': _ren_units, 'defs': {'quick': {'LL': 2}, 'thorough': {'LL': 3}},
      'variants': [{'ORDER': 1}, {'ORDER': 2}], 'expect_reach': ['end', 'reorder-path'], 'timeout': {'quick': 280, 'thorough': 1700}},
-    {'name': 'layout_ltr_runs_in_rtl', 'harness': 'c17_ren.c', 'units': _ren_units, 'defs': {'quick': {'LL': 3, 'ORDER': 2, 'RTLCTX': 1}, 'thorough': {'LL': 4, 'ORDER': 2, 'RTLCTX': 1}},
+    {'name': 'layout_ltr_runs_in_rtl', 'harness': 'c17_ren.c', 'units': _ren_units, 'defs': {'quick': {'LL': 4, 'ORDER': 2, 'RTLCTX': 1}, 'thorough': {'LL': 5, 'ORDER': 2, 'RTLCTX': 1}},
      'expect_reach': ['end', 'reorder-path'], 'timeout': {'quick': 280, 'thorough': 1700}},
     {'name': 'width_tables', 'harness': 'c17_tab.c', 'units': [], 'defs': {}, 'expect_reach': ['end'], 'timeout': {'quick': 280, 'thorough': 1700}},
 ]
@@ -247,6 +247,8 @@ JOBS['C18'] = [
      'expect_reach': ['end', 'reversed'], 'timeout': {'quick': 280, 'thorough': 1700}},
     {'name': 'reorder_marks', 'harness': 'c18_dir.c', 'units': _ren_units, 'defs': {'quick': {'LL': 4, 'MARKS': 1}, 'thorough': {'LL': 5, 'MARKS': 1}},
      'expect_reach': ['end', 'marks'], 'timeout': {'quick': 280, 'thorough': 1700}},
+    {'name': 'reorder_nested_mark', 'harness': 'c18_dir.c', 'units': _ren_units, 'defs': {'NESTED': 1},
+     'expect_reach': ['end', 'nested'], 'timeout': {'quick': 280, 'thorough': 1700}},
     {'name': 'shaping', 'harness': 'c18_shape.c', 'units': [], 'defs': {},
      'expect_reach': ['end', 'medial', 'final', 'initial', 'isolated', 'nonletter'], 'timeout': {'quick': 280, 'thorough': 1700}},
 ]
